@@ -148,7 +148,7 @@ impl Engine for E {
                 p.timeout_s = if quick { 900 } else { 3 * 3600 };
                 p.rule = "even cases: id statements - 1-5 committed attributes (Web3IdAttribute String of length 1..31 / Numeric), 1-4 atomic statements (reveal, in-range, in-set, not-in-set) generated at the boundaries (lower=value, value=upper-1, value=upper, value=lower-1, lower=upper, member first/last/absent/adjacent, set sizes 0,1,2,3,5,8,9), proof version 1 or 2, StatementWithContext::prove / verify. odd cases: web3id v0 presentations with 1-3 credentials (account and web3, empty statement lists allowed), Request::prove_with_rng / Presentation::verify incl. linking proof and JSON round trip. idx%8==6: two web3id v1 presentations (RequestV1::prove_with_rng / PresentationV1::verify) over account based and identity based credentials (identity object issued in the case, id::identity_attributes_credentials as sub-proof), same oracle style, all perturbations of context / credential fields / statements / statement proofs / identity attributes and their proofs / ephemeral id / validity / verification material. idx%8==7: anchored verification flow (web3id/v1/anchor/verify.rs): one valid baseline (request data, anchor, block hash, presentation, material, verification context) and ~60 single-deviation scenarios (issuer allow-lists with 0-3 (idp, network) pairs incl. cross combinations, credential type, network, validity window boundaries, request-vs-anchor, block hash, context given/requested, claims, cryptographic failure, audit record), each judged against the expected PresentationVerificationResult computed in the harness. Ground truth = comparison of the documented field embeddings in the harness (independent of to_field_element, cross-checked). evaluations = judged executions: all-true sets must be proved, verify (to the original request) and reveal the committed values; a set with one false statement must not yield a verifying proof; every perturbation of statement / challenge / credential id / global context / version / commitments / proofs / public inputs / holder / contract / issuer signature / linking signatures must not verify (for the documented unchecked account metadata: must not verify to the original request). distinct_nontrivial = distinct all-true requests whose perturbations all ran".into();
                 p.assumptions.push("ground truth: harness embedding of attributes (String: length byte then right-aligned bytes; Numeric: the integer) compared as big integers; range statements are only demanded to be provable when value-lower < 2^64 and upper-value <= 2^64 (documented 64-bit technique)".into());
-                p.assumptions.push("StatementWithContext::prove uses thread_rng() inside the library; web3id proofs use prove_with_rng with the case PRNG; web3id v1 is not covered".into());
+                p.assumptions.push("StatementWithContext::prove uses thread_rng() inside the library; web3id v0/v1 proofs use prove_with_rng with the case PRNG; identity objects for v1 identity based credentials are issued in the case with generate_pio_v1_with_rng / sign_identity_object_v1_with_rng; anchored-flow verdicts are predicted for single deviations from a valid baseline using the documented order of checks".into());
                 let s = if quick { 1 } else { 10 };
                 let mut f: Vec<(String, u64)> = vec![];
                 for (k, n) in [
